@@ -336,66 +336,7 @@ func buildOperators() []operator {
 		}))
 	}
 	overlap := func(name string) operator {
-		return stmtOp(name, "", ns, nonSkip, func(g *gen, d *Doc, s *Stmt) string {
-			// base: an existing well-formed x509.subject identity, else a fresh one
-			var with []int
-			for i, id := range s.IDs {
-				if id.DN != nil {
-					with = append(with, i)
-				}
-			}
-			var base dn
-			if len(with) == 0 {
-				base = g.newDN("V")
-				putIdent(g, s, g.x509Ident(base))
-			} else {
-				base.attrs = s.IDs[rp.Pick(g.rt, "base", with...)].DN
-			}
-			// re-derive a rendering of the base attributes (values are re-escaped minimally)
-			var nd dn
-			for _, a := range base.attrs {
-				nd.attrs = append(nd.attrs, a)
-				nd.rdns = append(nd.rdns, rdn{a.Type, escapeValue(a.Val)})
-			}
-			w := "equal"
-			if name == "ids-overlap-subset" {
-				var optional []int
-				for i, a := range nd.attrs {
-					if a.Type != "C" && a.Type != "ST" && a.Type != "O" {
-						optional = append(optional, i)
-					}
-				}
-				if len(optional) > 0 && rapid.Bool().Draw(g.rt, "narrower") {
-					// drop one optional attribute: the new identity is a strict subset
-					k := rp.Pick(g.rt, "drop", optional...)
-					nd.attrs = append(nd.attrs[:k:k], nd.attrs[k+1:]...)
-					nd.rdns = append(nd.rdns[:k:k], nd.rdns[k+1:]...)
-					w = "new-is-subset"
-				} else {
-					added := false
-					for _, t := range append(append([]string{}, optionalRDN...), "T", "SERIALNUMBER") {
-						if !nd.has(t) {
-							nd.add(g, t, g.dnValue(""))
-							added = true
-							break
-						}
-					}
-					if !added {
-						panic("harness: no free attribute type")
-					}
-					w = "new-is-superset"
-				}
-			}
-			for i := range nd.rdns { // spell ST either way
-				if nd.attrs[i].Type == "ST" && rapid.Bool().Draw(g.rt, "aliasS") {
-					nd.rdns[i].typ = "S"
-				}
-			}
-			id := g.x509Ident(g.shuffled(nd))
-			at := rapid.IntRange(0, len(s.IDs)).Draw(g.rt, "placeAt")
-			s.IDs = append(s.IDs[:at:at], append([]Ident{id}, s.IDs[at:]...)...)
-			return w
-		})
+		return stmtOp(name, "", ns, nonSkip, func(g *gen, d *Doc, s *Stmt) string { return addOverlap(g, s, name) })
 	}
 	ops = append(ops, overlap("ids-overlap-equal"), overlap("ids-overlap-subset"))
 
@@ -536,6 +477,71 @@ func buildOperators() []operator {
 		ops = append(ops, o)
 	}
 	return ops
+}
+
+// addOverlap inserts an x509.subject identity whose attributes equal (ids-overlap-equal) or
+// are a strict subset / superset (ids-overlap-subset) of those of an identity of the
+// statement, spelled differently (order, spacing, S/ST alias, escaping).
+func addOverlap(g *gen, s *Stmt, name string) string {
+	// base: an existing well-formed x509.subject identity, else a fresh one
+	var with []int
+	for i, id := range s.IDs {
+		if id.DN != nil {
+			with = append(with, i)
+		}
+	}
+	var base []Attr
+	if len(with) == 0 {
+		fresh := g.newDN("V")
+		putIdent(g, s, g.x509Ident(fresh))
+		base = fresh.attrs
+	} else {
+		base = s.IDs[rp.Pick(g.rt, "base", with...)].DN
+	}
+	// a new rendering of the base attributes (values escaped minimally)
+	var nd dn
+	for _, a := range base {
+		nd.attrs = append(nd.attrs, a)
+		nd.rdns = append(nd.rdns, rdn{a.Type, escapeValue(a.Val)})
+	}
+	w := "equal"
+	if name == "ids-overlap-subset" {
+		var optional []int
+		for i, a := range nd.attrs {
+			if a.Type != "C" && a.Type != "ST" && a.Type != "O" {
+				optional = append(optional, i)
+			}
+		}
+		if len(optional) > 0 && rapid.Bool().Draw(g.rt, "narrower") {
+			// drop one optional attribute: the new identity is a strict subset
+			k := rp.Pick(g.rt, "drop", optional...)
+			nd.attrs = append(nd.attrs[:k:k], nd.attrs[k+1:]...)
+			nd.rdns = append(nd.rdns[:k:k], nd.rdns[k+1:]...)
+			w = "new-is-subset"
+		} else {
+			added := false
+			for _, t := range append(append([]string{}, optionalRDN...), "T", "SERIALNUMBER") {
+				if !nd.has(t) {
+					nd.add(g, t, g.dnValue(""))
+					added = true
+					break
+				}
+			}
+			if !added {
+				panic("harness: no free attribute type")
+			}
+			w = "new-is-superset"
+		}
+	}
+	for i := range nd.rdns { // spell ST either way
+		if nd.attrs[i].Type == "ST" && rapid.Bool().Draw(g.rt, "aliasS") {
+			nd.rdns[i].typ = "S"
+		}
+	}
+	id := g.x509Ident(g.shuffled(nd))
+	at := rapid.IntRange(0, len(s.IDs)).Draw(g.rt, "placeAt")
+	s.IDs = append(s.IDs[:at:at], append([]Ident{id}, s.IDs[at:]...)...)
+	return w
 }
 
 // escapeValue renders a decoded attribute value in RFC 4514 text (backslash before the
